@@ -152,6 +152,17 @@ fn run_guarded<P: Property>(p: &P, case: &P::Case) -> Report {
         Ok(r) => r,
         Err(e) => {
             let msg = crate::sim::panic_msg(&e);
+            // a panic raised inside the crates under test while the harness called into them
+            // directly (Service::call, a builder, an accessor) is the library's failure, not the
+            // harness's: every property implies "no panic for valid inputs"
+            if let Some(at) = crate::sim::last_panic_location() {
+                if at.contains("tower-resilience-") || at.contains("tower_resilience_") {
+                    let mut r = Report::default();
+                    r.fail(format!("the library panicked at {at}: {msg}"));
+                    r.nontrivial = true;
+                    return r;
+                }
+            }
             println!(
                 "HARNESS-ERROR property={} panic outside the code under test: {}\ncase: {}",
                 p.id(),
